@@ -11,6 +11,10 @@ Units
                       model; NEW + LOAD (and MERGE for ASCII) restores byte-identical memory
   tokfile           : harness-built tokenised and protected files (arbitrary stored links, line
                       numbers up to 65535, bytes 0x01-0xFF in strings and comments)
+  textfile          : hand-written text program files (empty / blank-only lines, leading blanks,
+                      bare CR, missing final line break or 1A, unordered and duplicate lines,
+                      lines of exactly 254/255 characters) through LOAD and MERGE against the
+                      model of the resulting program
   convert           : pcbasic.main('--convert=X', in, out) for all 9 (from, to) pairs against
                       LOAD + SAVE in a session
 """
@@ -37,6 +41,10 @@ RULE = ("Cipher: all 143 x 256 (position, byte) pairs (exhaustive) and random st
         "0x1A, NUL or 0xFF byte, a line of >= 250 characters, or more than 143 bytes (cipher wraps); "
         "for cipher strings: length > 143.")
 ASSUMPTIONS = [
+    "text program files: empty lines and lines of blanks are ignored, blanks before the line number "
+    "are skipped, CR and CR LF both end a line, the final line break and the 1A are optional, lines "
+    "up to 255 characters load (GW-BASIC practice; LF-only files are not generated; a 255-character "
+    "line always keeps its line break)",
     "program memory = the bytes from the program start pointer to the 00 00 terminator, read with "
     "BSAVE (same byte-wise interface as PEEK); what follows the terminator is not asserted "
     "(a tokenised LOAD keeps the file's trailing 1A behind it, so re-saving grows the file by one "
@@ -412,6 +420,80 @@ def check_tokfile(case, res):
     return res
 
 
+def pad_text_line(num, atoms, target):
+    """Atoms whose typed line '<num> <body>' is exactly `target` characters (and lists the same)."""
+    room = target - len('%d ' % num)
+    ent, can, _ = G.render(atoms)
+    if len(ent) != len(can) or len(ent) > room - 6:
+        atoms = [['k', 'END', 0]]
+    return pad_line(atoms, room)
+
+
+def check_textfile(case, res):
+    """A hand-written text program file: layout variations, unordered and duplicate lines."""
+    items = []
+    for num, atoms, padto in case['lines']:
+        if padto:
+            atoms = pad_text_line(num, atoms, padto)
+        items.append((num, atoms))
+    texts = [G.line_text(n, a) for n, a in items]
+    model = {}
+    for n, a in items:
+        model[n] = a
+    prog = [(n, None, G.line_tokens(n, model[n]), ('%d ' % n).encode() + G.render(model[n])[1])
+            for n in sorted(model)]
+    data = progio.text_file_bytes(texts, case.get('fmt'))
+    cmd = case['cmd']
+    res.label('cmd:' + cmd)
+    if case.get('fmt'):
+        res.label('layout-variation')
+    if len(model) < len(items):
+        res.label('duplicates')
+    if [n for n, _ in items] != sorted(n for n, _ in items):
+        res.label('out-of-order')
+    for t in texts:
+        if len(t) >= 254:
+            res.label('line:%d' % len(t))
+    with harness.Sess() as s:
+        with open(os.path.join(s.sandbox.z, 'T.BAS'), 'wb') as f:
+            f.write(data)
+        if cmd == 'MERGE-over':
+            # a line that the file replaces and one that it leaves alone
+            keep = 65529 if 65529 not in model else None
+            s.execute_line(b'%d REM old' % prog[0][0])
+            if keep:
+                s.execute_line(b'65529 REM kept')
+                prog = prog + [(keep, None, b'\x8f kept', b'65529 REM kept')]
+            ok = run(s, res, b'MERGE "T"', 'merge')
+        elif cmd == 'MERGE':
+            ok = run(s, res, b'MERGE "T"', 'merge')
+        else:
+            s.execute_line(b'1 REM to be replaced')
+            ok = run(s, res, b'LOAD "T"', 'load')
+        if not ok:
+            res.fails = [(k, m + ' file %r' % data[:300]) for k, m in res.fails]
+            return res
+        start = progio.program_start(s)
+        img = image([(p[0], p[2]) for p in prog], start)
+        res.nt(bool(case.get('fmt')) or len(model) < len(items) or any(len(t) >= 254 for t in texts))
+        listing, o = progio.list_to_file(s)
+        want = [p[3] for p in prog]
+        if progio.listing_lines(listing) != want:
+            got = progio.listing_lines(listing) or []
+            i = next((i for i in range(min(len(got), len(want))) if got[i] != want[i]),
+                     min(len(got), len(want)))
+            res.fail('textfile.list', '%s of %r: listing line %d is %r, expected %r (%d vs %d lines)' % (
+                cmd, data[:200], i, got[i] if i < len(got) else None,
+                want[i] if i < len(want) else None, len(got), len(want)))
+        _, m1 = read_memory(s, len(img), res, 'after ' + cmd)
+        if m1 is not None and m1 != img:
+            i = next(i for i in range(len(img)) if m1[i] != img[i])
+            res.fail('textfile.memory', '%s: program memory differs from the model at offset %d: %s '
+                     'expected %s' % (cmd, i, m1[max(0, i - 4):i + 8].hex(' '),
+                                      img[max(0, i - 4):i + 8].hex(' ')))
+    return res
+
+
 def check_rawload(case, res):
     """LOAD of a degenerate file must end in a BASIC error or an (empty) program, not escape."""
     data = bytes.fromhex(case['hex'])
@@ -490,6 +572,8 @@ def check_case(case):
         check_cipher_string(x, res, 'string of length %d' % len(x))
     elif u == 'rawload':
         check_rawload(case, res)
+    elif u == 'textfile':
+        check_textfile(case, res)
     elif u == 'prog':
         check_program(case, res)
     elif u == 'tokfile':
@@ -576,6 +660,16 @@ def strat_tokfile():
                      st.sampled_from(['B', 'P']), st.booleans())
 
 
+def strat_textfile():
+    num = st.one_of(st.integers(0, 65529), st.integers(1, 60).map(lambda n: n * 10),
+                    st.sampled_from([0, 1, 10, 20, 65529]))
+    body = G.st_line_atoms('advanced', max_len=100, max_statements=3)
+    padto = st.sampled_from([None] * 8 + [254, 255, 255])
+    lines = st.lists(st.tuples(num, body, padto).map(list), min_size=1, max_size=10)
+    return st.builds(lambda ls, fmt, cmd: {'u': 'textfile', 'lines': ls, 'fmt': fmt, 'cmd': cmd},
+                     lines, progio.st_text_fmt(), st.sampled_from(['LOAD', 'MERGE', 'MERGE-over']))
+
+
 def strat_convert():
     def build(src, dst):
         return st_program(src != 'A', maxlines=6).map(
@@ -605,6 +699,9 @@ def units(tier):
              strategy=strat_programs),
         Unit('tokfile', 'hyp', shards=8, examples={'quick': G.scaled(30), 'thorough': G.scaled(1500)},
              strategy=strat_tokfile),
+        Unit('textfile', 'hyp', shards=16, examples={'quick': G.scaled(40),
+                                                     'thorough': G.scaled(3000)},
+             strategy=strat_textfile),
         Unit('convert-pairs', 'enum', shards=3, gen=gen_convert_pairs),
         Unit('convert', 'hyp', shards=16, examples={'quick': G.scaled(4), 'thorough': G.scaled(60)},
              strategy=strat_convert, per_case_timeout=120.0),
@@ -628,6 +725,14 @@ REGRESSIONS = [
         [65529, [['v', 'A$', 0], ['o', '='], ['s', '\x1a\xff', True]]]]},
     {'u': 'prog', 'fmt': 'A', 'dev': 'mem', 'lines': [
         [10, [['k', 'PRINT', 0], ['sp', 1], ['n', 's', 15, -1, 0], ['p', ';'], ['n', 'h', 255, 0]]]]},
+    # seeded change: the text loader stopped at the first empty line
+    {'u': 'textfile', 'cmd': 'LOAD', 'lines': [
+        [30, [['k', 'PRINT', 0], ['sp', 1], ['n', 'd', 3]], None],
+        [10, [['k', 'PRINT', 0], ['sp', 1], ['n', 'd', 1]], 255],
+        [30, [['k', 'PRINT', 0], ['sp', 1], ['n', 'd', 4]], 254],
+        [20, [['k', 'END', 0]], None]],
+     'fmt': {'per': [{'e': 1, 'b': 0, 'l': 0, 'cr': False}, {'e': 0, 'b': 3, 'l': 2, 'cr': True}],
+             'tail': 0, 'brk': False, 'eof': False}},
     {'u': 'tokfile', 'fmt': 'P', 'noeof': False, 'links': [1, 2], 'lines': [
         [65530, [['k', 'PRINT', 0], ['sp', 1], ['n', 'd', 1]]],
         [65535, [['k', 'END', 0]]]]},
